@@ -69,6 +69,8 @@ def run(payload):
                 op = rng.choice(['setf', 'setf', 'compute', 'far', 'near', 'compute2', 'resrc'])
                 if op == 'setf':
                     fk = f0 * rng.choice([0.5, 0.8, 1.0, 1.25, 2.0, rng.uniform(0.3, 3)])
+                    if rng.random() < 0.3:
+                        fk = float(m.f) * (1 + rng.choice([-1, 1]) * rng.choice([2e-6, 5e-6, 8e-6]))      # a narrow-band sweep step
                     m.f = fk; computed = False
                     ops.append(['setf', fk])
                 elif op.startswith('compute'):
@@ -88,6 +90,8 @@ def run(payload):
             F = f0 * rng.choice([1.0, 0.7, 1.9, rng.uniform(0.4, 2.5)])
             last = rng.choice(['setf-compute', 'setf-compute', 'compute-again', 'resrc-compute'])
             if last == 'setf-compute':
+                if rng.random() < 0.3:
+                    F = float(m.f) * (1 + rng.choice([-1, 1]) * rng.choice([2e-6, 5e-6, 8e-6]))
                 m.f = F; m.compute(); ops += [['setf', F], ['compute']]
             elif last == 'compute-again':
                 # the last computation repeats one at the same frequency, with nothing changed in between
